@@ -60,21 +60,35 @@ pub fn edge_keys<S: MlDsa>(seed: u64, n: usize, nfull: usize, out: &mut Out) {
             xi[8..16].copy_from_slice(&(base ^ 0x5555).to_le_bytes());
             let hh = shake256(&[&xi, &[S::K as u8], &[S::L as u8]], 128);
             let (rho, rhop) = (&hh[..32], &hh[32..96]);
-            let s1: Vec<Poly> = (0..S::L).map(|r| { let mut sd = rhop.to_vec(); sd.extend_from_slice(&(r as u16).to_le_bytes()); refmath::rej_bounded_poly(S::ETA, &sd).0 }).collect();
-            let s2: Vec<Poly> = (0..S::K).map(|r| { let mut sd = rhop.to_vec(); sd.extend_from_slice(&((r + S::L) as u16).to_le_bytes()); refmath::rej_bounded_poly(S::ETA, &sd).0 }).collect();
-            let a: Vec<Vec<Poly>> = (0..S::K).map(|r| (0..S::L).map(|c| { let mut sd = rho.to_vec(); sd.push(c as u8); sd.push(r as u8); refmath::rej_ntt_poly(&sd).0 }).collect()).collect();
+            let mut maxused = 0usize;
+            let s1: Vec<Poly> = (0..S::L).map(|r| { let mut sd = rhop.to_vec(); sd.extend_from_slice(&(r as u16).to_le_bytes()); let (p, u) = refmath::rej_bounded_poly(S::ETA, &sd); maxused = maxused.max(u); p }).collect();
+            let s2: Vec<Poly> = (0..S::K).map(|r| { let mut sd = rhop.to_vec(); sd.extend_from_slice(&((r + S::L) as u16).to_le_bytes()); let (p, u) = refmath::rej_bounded_poly(S::ETA, &sd); maxused = maxused.max(u); p }).collect();
+            let mut maxntt = 0usize;
+            let a: Vec<Vec<Poly>> = (0..S::K).map(|r| (0..S::L).map(|c| { let mut sd = rho.to_vec(); sd.push(c as u8); sd.push(r as u8); let (p, u) = refmath::rej_ntt_poly(&sd); maxntt = maxntt.max(u); p }).collect()).collect();
             let w = refmath::mat_vec(&a, &s1);
-            let mut score = 0u32;
+            // a sampler that needs a third SHAKE256 block (more than 272 bytes) or a sixth SHAKE128 block is a rare path too
+            // rarity classes (bit mask in the low digits of the score): 1 t = q exactly, 2 t > q, 4 t < 0, 8 a sampler needs an extra XOF block
+            let mut cls = 0u32;
+            if maxused > 272 || maxntt > 840 { cls |= 8; }
             for r in 0..S::K { for k in 0..256 {
                 let tp = w[r][k] + s2[r][k] as i64;
-                if tp == refmath::Q { score += 1000; } else if tp > refmath::Q { score += 100; } else if tp < 0 { score += 10; }
-                if (tp >= refmath::Q || tp < 0) && r == S::K - 1 { score += 5; }
+                if tp == refmath::Q { cls |= 1; } else if tp > refmath::Q { cls |= 2; } else if tp < 0 { cls |= 4; }
             } }
+            let score = cls.count_ones() * 100 + cls;
             if score > 0 { found.lock().unwrap().push((score, xi)); }
             i += nt;
         } }); } });
     let mut edges = found.into_inner().unwrap();
     edges.sort_by(|a, b| b.0.cmp(&a.0).then(a.1.cmp(&b.1)));
+    // one seed of EVERY rarity class goes first (those are recomputed in full by TLC): a slip that keeps generated and
+    // derived keys consistent with each other is only visible against the specification
+    let mut front: Vec<(u32, [u8; 32])> = vec![];
+    for bit in [1u32, 2, 4, 8] { if let Some(i) = edges.iter().position(|e| (e.0 % 100) & bit != 0 && !front.iter().any(|f| f.1 == e.1)) { front.push(edges[i]); } }
+    edges.retain(|e| !front.iter().any(|f| f.1 == e.1));
+    let nclass = front.len();
+    front.extend(edges);
+    let edges = front;
+    let nfull = nfull.max(nclass);
     let (mut fails, mut full) = (0u64, 0usize);
     for (k, (score, xi)) in edges.iter().enumerate() {
         let r = guarded(|| {
@@ -91,7 +105,7 @@ pub fn edge_keys<S: MlDsa>(seed: u64, n: usize, nfull: usize, out: &mut Out) {
                 // the highest scores (rarest edges) and every disagreement are recomputed in full by TLC
                 if (k < nfull || bad) && full < nfull + 3 {
                     full += 1;
-                    out.ev(json!({"ev": "KeyGen", "via": "seed", "why": format!("t leaves [0,q) before the final reduction (edge score {})", score), "xi": jbytes(xi), "pk": jbytes(&pkb), "sk": jbytes(&skb)}));
+                    out.ev(json!({"ev": "KeyGen", "via": "seed", "why": format!("rare key: t leaves [0,q) before the final reduction and/or a sampler needs an extra XOF block (score {})", score), "xi": jbytes(xi), "pk": jbytes(&pkb), "sk": jbytes(&skb)}));
                     out.ev(json!({"ev": "Same", "what": format!("public key generated vs derived from the private key, edge seed {}", hexs(xi)), "a": hexs(&pkb), "b": hexs(&der)}));
                     out.ev(json!({"ev": "Same", "what": format!("public key generated vs derived from the round-tripped private key, edge seed {}", hexs(xi)), "a": hexs(&pkb), "b": hexs(&der2)}));
                 }
